@@ -406,4 +406,10 @@ func (group *Group) delIn() {
 	group.httptsGopCache.Clear()
 	group.sdpCtx = nil
 	group.patpmt = nil
+
+	// 流的编码信息属于刚离开的输入，下一个输入（比如纯音频）不应该受它影响，比如新加入的sub是否需要等待视频关键帧
+	group.stat.VideoCodec = ""
+	group.stat.AudioCodec = ""
+	group.stat.VideoWidth = 0
+	group.stat.VideoHeight = 0
 }
